@@ -1377,7 +1377,7 @@ int safec_vsnprintf_s(out_fct_type out, const char *funcname, char *buffer,
 #endif // PRINTF_SUPPORT_FLOAT
         case 'c': {
             unsigned int l = 1U;
-            char wstr[5];
+            char wstr[MB_LEN_MAX + 1]; /* glibc encodes up to 6 bytes */
             if (flags & FLAGS_LONG) {
 #ifndef SAFECLIB_DISABLE_WCHAR
                 /* as if by wcrtomb with a state of its own (C11 7.21.6.1p8),
@@ -1386,7 +1386,7 @@ int safec_vsnprintf_s(out_fct_type out, const char *funcname, char *buffer,
                 int len;
                 memset(&st, 0, sizeof(st));
                 len = (int)wcrtomb(wstr, (wchar_t)va_arg(va, int), &st);
-                if (len <= 0 || len > 4) {
+                if (len <= 0) {
                     char msg[80];
                     snprintf(msg, sizeof msg, "%s: wctomb for %%lc arg failed",
                              funcname);
